@@ -251,8 +251,16 @@ class Report:
         }
         if self.known_hit:
             ev["known_findings_reproduced"] = sorted(self.known_hit)
-        os.makedirs(os.path.join(OUT, "evidence"), exist_ok=True)
-        with open(os.path.join(OUT, "evidence", self.pid + ".json"), "w") as f:
+        # a --replay run re-executes one saved case: its record goes next to the work files, not over the
+        # evidence of the last full run; engines outside the property list (ids X..) have their own directory
+        if "--replay" in sys.argv:
+            edir, fname = os.path.join(OUT, "work", self.pid), "replay_evidence.json"
+        elif self.pid.startswith("X"):
+            edir, fname = os.path.join(OUT, "evidence_extra"), self.pid + ".json"
+        else:
+            edir, fname = os.path.join(OUT, "evidence"), self.pid + ".json"
+        os.makedirs(edir, exist_ok=True)
+        with open(os.path.join(edir, fname), "w") as f:
             json.dump(ev, f, indent=1, default=str)
         for sig, what in sorted(self.known_hit.items()):
             log("KNOWN-FINDING: property=%s %s [%s]" % (self.pid, what, sig))
